@@ -136,6 +136,14 @@ CLAIMED = {
         'caller records deep-equal and identical afterwards, invalid key combinations rejected at build time.',
         'Records are dicts {a, b, n:{x}} of small ints; a fixed function library; batch() only as the last operator.',
         '5/C08'),
+    'C12': (
+        'TLA+ specs Operators.tla (failing functions, Skip on/off), SkipBatch.tla (skipping under fn_batch_size / batch_size) and RangeIter.tla (failing source positions) model-checked by TLC; every enumerated behaviour replayed on the real runner with ignore_error on and off, single- and multi-threaded',
+        'TLC checks the interpreter laws with skipping, and for every (rows<=6, input batch size, fn_batch_size, batch_size, <=2 failing rows) that exactly the rows of failing calls are lost, none duplicated, order kept, '
+        'and that strict mode yields a prefix and then the error. Every configuration is run on apply / assign / filter / sink with iterate(ignore_error=True|False): delivered rows, pairing of outputs with their own inputs, '
+        'batch shapes, error surfacing with the original exception in the cause chain, sinks closed once; operator programs also run with num_threads 1 and 2 over a sharded source (multiset, helper threads ended); '
+        'failing data-source positions are read through a pipeline with 0-2 threads.',
+        'assign is exercised with batch sizes equal to the input batch size only (pairing is undefined otherwise); skippable = ValueError/TypeError.',
+        '5/C12'),
 }
 
 PENDING = {}
